@@ -29,3 +29,21 @@ claim("C12",
       "Not covered: byte equality of the retransmitted packet (follows from these facts plus C05, not separately decided); an application mutating its Message while a publish is in flight.",
       "who-may-write over all FieldAddr stores of the package + edge dominance + handle value-origin typestate",
       "DESIGN.md section 4, C12")
+
+claim("C03",
+      "Whole property (order of PUBLISH packets observed on every connection) is behavioural and NOT decided. Decided: the queue discipline that produces it — one consumer goroutine started once that pops element 0 inside the critical section in which it loaded it; task queue and retry queue are only ever tail-appended, front-popped or reset after a snapshot (all stores in the package enumerated); a request is sent at once only on the `len(retryQueue)==0` edge, otherwise it queues behind; nothing reachable from a task starts a goroutine; Retry() iterates ascending, stops at the first failure and re-queues [continuation, unattempted tail] in that order; Resubscribe is queued before Retry; API calls go through the queue.",
+      "Not covered: what a broker does with the order; several submitting goroutines (the statement speaks of one).",
+      "who-may-write enumeration of queue stores + symbolic append-chain decomposition + edge dominance + call-graph reachability",
+      "DESIGN.md section 4, C03")
+
+claim("C11",
+      "Close to fully structural: a call can block for ever only at a blocking operation, and the checker enumerates every blocking channel operation of the package. Each acknowledgement wait must be a three-way select (connection-closed channel of the client written to / Done() of the call's own context / the registered waiter) whose non-waiter cases return errors (cancelled case: ctx.Err() of that context); every other blocking operation must match a table entry with a structural side condition (reconnect-loop waits have returning `disconnected` and ctx.Done() cases, blocking sends only on channels created with capacity >= 1, ...); no wait under a mutex other than muConnecting and no exclusive acquisition of a mutex that is held across waits outside Connect; the reader goroutine closes the transport and then Done() on every path with nothing blocking in between; the held->acquired lock graph is acyclic.",
+      "Not covered: blocking inside Transport.Read/Write (unblocked by Close: an assumption about the Transport) or inside user callbacks; 'promptly' as a duration; a request queued on muConnecting behind another goroutine's Connect does not observe its own context (by-design exception, listed).",
+      "exhaustive classification of blocking SSA instructions + interprocedural must-hold lock-set analysis + CFG must-follow",
+      "DESIGN.md section 4, C11")
+
+claim("C18",
+      "Decided: every request the retry client issues and every queued retry handle runs under a context obtained from requestContext(own ctx) whose cancel is released on every path; requestContext derives context.WithTimeout(ctx, ResponseTimeout) and reports expiry as RequestTimeoutError; a timed-out wait returns an error that carries its retry handle; on every failure — first transmission and retransmission alike — the error is reported through OnError, the handle is kept (wrapped in the request context again) and the connection is marked for closing, and the task loop closes it.",
+      "Not covered: that the timer fires at the configured time; time spent blocked in Transport.Write.",
+      "SSA value-origin of context operands + CFG must-follow on failure edges",
+      "DESIGN.md section 4, C18")
